@@ -182,5 +182,28 @@ pub fn gen(tier: &str, seed: u64, out: &mut dyn Write) {
             emit(out, &scratch, &format!("rich=31 load=1 stores=2 sabot=0 kinds=0 pre={} craft=0 part={} e=", pre, part));
         }
     }
+    // round 6: store files that vanish / turn into directories / are truncated on disk after the load and before any
+    // access (k of them), saved elsewhere and in place: a successful save writes exactly the store's keys; an entry in
+    // error state refuses the save with everything untouched.  Alias spellings of an in-place target; a large lazy file.
+    for stores in 1..=2u32 {
+        let (d, i) = crate::c08::store_set(stores);
+        let (nd, ni) = (d.len(), i.len());
+        for op in ["x", "r", "t"] {
+            let all_d: Vec<String> = (0..nd).map(|k| format!("d{}{}", k, op)).collect();
+            let sets = [format!("d{}{}", nd - 1, op), format!("i{}{}", ni - 1, op), format!("d0{}.i0{}", op, op), all_d.join(".")];
+            for pre in [0u32, 2, 5] {
+                for sab in &sets {
+                    emit(out, &scratch, &format!("rich={} load=1 stores={} sabot=0 kinds=0 pre={} craft=0 sab={} e=", rng.below(32), stores, pre, sab));
+                }
+            }
+        }
+    }
+    for tsp in 3..=4 {
+        for pre in [5u32, 2] {
+            emit(out, &scratch, &format!("rich={} load=1 stores=2 sabot=0 kinds=0 pre={} craft=0 tsp={} e=", rng.below(32), pre, tsp));
+        }
+    }
+    emit(out, &scratch, "rich=3 load=1 stores=5 sabot=0 kinds=0 pre=5 craft=0 e=");
+    emit(out, &scratch, "rich=3 load=1 stores=5 sabot=0 kinds=0 pre=0 craft=0 sab=d0x e=");
     rm_rf(&scratch);
 }
